@@ -19,6 +19,7 @@ import (
 	"bufio"
 	"encoding/json"
 	"fmt"
+	"math"
 	"os"
 	"os/exec"
 	"path/filepath"
@@ -26,6 +27,7 @@ import (
 	"sort"
 	"strconv"
 	"strings"
+	"sync"
 	"time"
 
 	"go.flow.arcalot.io/pluginsdk/schema"
@@ -201,6 +203,29 @@ func dsRootObject(scope *hx.Val) *hx.Val {
 		return ro
 	}
 	return nil
+}
+
+// dsMapNodes lists the non-empty map nodes of a description in walk order.
+func dsMapNodes(root *hx.Val) []*hx.Val {
+	var out []*hx.Val
+	root.Walk(func(x *hx.Val) {
+		if x.Kind == "m" && len(x.M) > 0 {
+			out = append(out, x)
+		}
+	})
+	return out
+}
+
+var dsOddKeyNames = []string{"NaN", "+Inf", "1.5", "int64", "uint64", "bool", "nil", "-0"}
+var dsOddKeys = []func() *hx.Val{
+	func() *hx.Val { return hx.F64(math.NaN()) },
+	func() *hx.Val { return hx.F64(math.Inf(1)) },
+	func() *hx.Val { return hx.F64(1.5) },
+	func() *hx.Val { return hx.Int("int64", -3) },
+	func() *hx.Val { return hx.Uint("uint64", 7) },
+	func() *hx.Val { return hx.Bool(true) },
+	func() *hx.Val { return hx.Nil() },
+	func() *hx.Val { return hx.F64(math.Copysign(0, -1)) },
 }
 
 // dsSetField sets (or adds) a string-keyed entry of a map node.
@@ -752,6 +777,9 @@ func dsCoverOpt(g *hx.Gen, t *dsTy, env map[string]*dsTy, onPath map[string]int,
 		if k.Kind != "s" && k.Kind != "i" { // a Go map key must be hashable; keep strings and integers
 			k = hx.Str("k")
 		}
+		if choice == 2 {
+			k = hx.F64(math.NaN()) // as a CBOR or YAML decoder can produce it
+		}
 		return hx.AnyAny([2]*hx.Val{k, dsCoverOpt(g, t.V, env, onPath, choice, depth+1, requiredOnly)})
 	case "obj":
 		m := hx.StrAny()
@@ -763,6 +791,11 @@ func dsCoverOpt(g *hx.Gen, t *dsTy, env map[string]*dsTy, onPath map[string]int,
 		}
 		return m
 	case "ref":
+		if t.NS == dsForeignNS {
+			if o, ok := dsForeignObjs()[t.ID]; ok {
+				return dsCoverOpt(g, o, env, onPath, choice, depth+1, requiredOnly)
+			}
+		}
 		o, ok := env[t.ID]
 		if !ok || t.NS != "" || onPath[t.ID] >= 2 {
 			return hx.StrAny() // nothing known about the target: any map enters the reference
@@ -816,6 +849,10 @@ func dsCoverOpt(g *hx.Gen, t *dsTy, env map[string]*dsTy, onPath map[string]int,
 // the parent
 
 func dsRebuildCmd(a Args) {
+	if os.Getenv("DS_CONC_WORK") != "" {
+		dsConcChild(os.Getenv("DS_CONC_WORK"), os.Getenv("DS_CONC_MODE"))
+		return
+	}
 	if os.Getenv("DS_CHILD_WORK") != "" {
 		from, _ := strconv.Atoi(os.Getenv("DS_CHILD_FROM"))
 		dsChild(os.Getenv("DS_CHILD_WORK"), from)
@@ -889,6 +926,34 @@ func dsRebuildCmd(a Args) {
 				note = "ref-namespace"
 			}
 			add(mode, c, kind+": "+note+" (reference "+strconv.Itoa(ri)+")")
+		}
+		// targeted: the KEY of an entry of some map node (steps, objects, properties, outputs, one-of
+		// types, enum values, multipliers, any struct-like node) is replaced by, or an entry is added
+		// under, an oddly typed key as CBOR and YAML decoders produce them
+		mapNodes := dsMapNodes(desc)
+		s.stats["map-nodes:"+kind] += len(mapNodes)
+		for n, mi := range g.R.Perm(len(mapNodes)) {
+			if !thorough && n >= 4 {
+				break
+			}
+			c := dsCopyVal(desc)
+			node := dsMapNodes(c)[mi]
+			ki := g.R.Intn(len(dsOddKeys))
+			if n == 0 {
+				ki = 0 // NaN at least once per seed description
+			}
+			key := dsOddKeys[ki]()
+			node.MK = "any"
+			ei := g.R.Intn(len(node.M))
+			var note string
+			if g.R.Intn(2) == 0 {
+				node.M[ei][0] = key
+				note = "odd-key-replace"
+			} else {
+				node.M = append(node.M, [2]*hx.Val{key, dsCopyVal(node.M[ei][1])})
+				note = "odd-key-add"
+			}
+			add(mode, c, kind+": "+note+" "+dsOddKeyNames[ki]+" (map node "+strconv.Itoa(mi)+")")
 		}
 		// targeted: the root object of every scope of the description (top level, nested scopes, data
 		// scopes of steps) gets an ID different from its key - with and without `id_unenforced` -, is
@@ -1015,6 +1080,9 @@ func dsRebuildCmd(a Args) {
 		add([]string{"scope", "schema"}[g.R.Intn(2)], dsMetaRandom(g, 0), "random: meta field names")
 	}
 	dsWitnessesC10(add)
+	for i, w := range dsConcurrentDescriptions(a.Seed, 30) {
+		add(w.Mode, w.V, fmt.Sprintf("patterns: description %d with distinct patterns", i))
+	}
 	// hello mode carries the description over CBOR: values that cannot be encoded cannot be sent
 	kept := work[:0]
 	for _, w := range work {
@@ -1042,6 +1110,7 @@ func dsRebuildCmd(a Args) {
 	bw.Flush()
 	wf.Close()
 	dsSupervise(s, work, workPath)
+	dsConcurrencyGroup(s, a)
 	s.close(map[string]any{"generator": g.Stats, "seed": a.Seed, "work_items": len(work)})
 }
 
@@ -1132,6 +1201,16 @@ func dsWitnessesC10(add func(mode string, v *hx.Val, note string)) {
 		add(mode, sameKey(handlerData(ref("Item"), "Gone")), "witness: handler and emitter share a key; the handler's data schema has no root object")
 		add(mode, sameKey(handlerData(ref("Item"), "Root", kv("q", prop(m(kv("type_id", S("integer"))), opt, kv("default", S("{")))))), "witness: handler and emitter share a key; undecodable default in the handler's data schema")
 	}
+	// oddly typed map keys at the map-like nodes of a description
+	nanKeyed := func(v *hx.Val) *hx.Val { return hx.AnyAny([2]*hx.Val{hx.F64(math.NaN()), v}) }
+	add("scope", m(kv("root", S("NaN")), kv("objects", nanKeyed(obj("NaN", kv("x", prop(strT, opt)), kv("y", prop(strT, opt)))))), "witness: NaN key in `objects`")
+	aObj := obj("A")
+	aObj.M[1][1] = nanKeyed(prop(strT, opt))
+	add("scope", scope("A", kv("A", aObj)), "witness: NaN key in `properties`")
+	add("schema", m(kv("steps", nanKeyed(stepS))), "witness: NaN key in `steps`")
+	add("hello", m(kv("steps", nanKeyed(stepS))), "witness: NaN key in `steps` (hello)")
+	enumT := m(kv("type_id", S("enum_string")), kv("values", hx.AnyAny([2]*hx.Val{hx.F64(math.NaN()), m()}, [2]*hx.Val{S("a"), m()})))
+	add("scope", scope("A", kv("A", obj("A", kv("e", prop(enumT, opt)), kv("f", prop(strT, opt))))), "witness: NaN key among string enum values")
 	// known finding D13: recursion that does not consume input
 	add("scope", scope("A", kv("A", obj("A", kv("n", prop(ref("A"), kv("required", hx.Bool(false)), kv("default", S("{}"))))))), "witness D13: default re-enters its own object")
 	add("scope", scope("A", kv("A", obj("A", kv("next", prop(ref("A"), kv("required", hx.Bool(false))))))), "witness D13: single-property object referring to itself")
@@ -1287,6 +1366,177 @@ func dsSupervise(s *dsSink, work []dsWork, workPath string) {
 		from = cur + 1
 	}
 	s.stats["child-restarts"] = restarts
+}
+
+// ---------------------------------------------------------------------------------------------
+// concurrent loading: an engine reads the schemas of several plugins at the same time
+
+// dsConcurrentDescriptions returns n small descriptions (scopes and plugin schemas, alternating over
+// the three loaders) whose string types carry patterns no other description uses; every seventh
+// carries a pattern that does not compile and must be rejected.
+func dsConcurrentDescriptions(seed int64, n int) []dsWork {
+	S := hx.Str
+	kv := func(k string, v *hx.Val) [2]*hx.Val { return [2]*hx.Val{S(k), v} }
+	m := func(kvs ...[2]*hx.Val) *hx.Val { return hx.StrAny(kvs...) }
+	var out []dsWork
+	for i := 0; i < n; i++ {
+		scope := func(tag string) *hx.Val {
+			var props [][2]*hx.Val
+			for j := 0; j < 3; j++ {
+				pat := fmt.Sprintf("^c%d_%d%s_%d[a-z]{%d}$", seed, i, tag, j, j+1)
+				if i%7 == 6 && j == 1 && tag == "" {
+					pat = fmt.Sprintf("(c%d_%d", seed, i)
+				}
+				props = append(props, kv(fmt.Sprintf("p%d", j), m(kv("type", m(kv("type_id", S("string")), kv("pattern", S(pat)))), kv("required", hx.Bool(false)))))
+			}
+			props = append(props, kv("re", m(kv("type", m(kv("type_id", S("pattern")))), kv("required", hx.Bool(false)))))
+			return m(kv("root", S("A")), kv("objects", m(kv("A", m(kv("id", S("A")), kv("properties", m(props...)))))))
+		}
+		mode := []string{"scope", "schema", "hello"}[i%3]
+		v := scope("")
+		if mode != "scope" {
+			st := m(kv("id", S("s")), kv("input", v), kv("outputs", m(kv("ok", m(kv("schema", scope("o")))))))
+			v = m(kv("steps", m(kv("s", st))))
+		}
+		out = append(out, dsWork{ID: i, Mode: mode, V: v})
+	}
+	return out
+}
+
+type dsConcResult struct {
+	Verdicts []string `json:"verdicts"`
+}
+
+// dsConcChild loads every description of the work file - concurrently from 16 goroutines ("par") or
+// one after the other ("seq") - and prints the verdicts.
+func dsConcChild(path, mode string) {
+	f, err := os.Open(path)
+	if err != nil {
+		panic(err)
+	}
+	var work []dsWork
+	sc := bufio.NewScanner(f)
+	sc.Buffer(make([]byte, 1<<20), 1<<28)
+	for sc.Scan() {
+		var w dsWork
+		if err := json.Unmarshal(sc.Bytes(), &w); err != nil {
+			panic(err)
+		}
+		w.V = dsFixNil(w.V)
+		work = append(work, w)
+	}
+	f.Close()
+	verdicts := make([]string, len(work))
+	load := func(i int) {
+		w := work[i]
+		r := hx.Guard(func() hx.Result {
+			scopes, _, err := dsLoad(w.Mode, w.V.ToGo())
+			if err != nil && scopes == nil {
+				return hx.ErrResult(err)
+			}
+			// first use: a pattern-typed property compiles its input as well
+			// (many distinct expressions, so that whatever the loaders share between calls is written often)
+			for _, sc := range scopes {
+				for k := 0; k < 120; k++ {
+					if _, err := sc.Unserialize(map[string]any{"re": fmt.Sprintf("^u%d_%d[0-9]+$", i, k)}); err != nil {
+						return hx.Result{R: "ok", Msg: "use failed"}
+					}
+				}
+			}
+			return hx.Result{R: "ok"}
+		})
+		verdicts[i] = r.R
+	}
+	if mode == "seq" {
+		for i := range work {
+			load(i)
+		}
+	} else {
+		const workers = 16
+		var wg sync.WaitGroup
+		start := make(chan struct{})
+		for g := 0; g < workers; g++ {
+			wg.Add(1)
+			go func(g int) {
+				defer wg.Done()
+				<-start
+				for i := g; i < len(work); i += workers {
+					load(i)
+				}
+			}(g)
+		}
+		close(start)
+		wg.Wait()
+	}
+	b, _ := json.Marshal(dsConcResult{Verdicts: verdicts})
+	os.Stdout.Write(append(b, '\n'))
+}
+
+// dsConcurrencyGroup: the same descriptions loaded concurrently and sequentially, each in a fresh
+// process; the verdicts must agree and the concurrent process must survive.
+func dsConcurrencyGroup(s *dsSink, a Args) {
+	n := 480
+	if a.Tier == "thorough" {
+		n = 4000
+	}
+	work := dsConcurrentDescriptions(a.Seed, n)
+	path := filepath.Join(a.Out, "concurrent.jsonl")
+	wf, err := os.Create(path)
+	if err != nil {
+		panic(err)
+	}
+	bw := bufio.NewWriterSize(wf, 1<<20)
+	for _, w := range work {
+		b, _ := json.Marshal(w)
+		bw.Write(b)
+		bw.WriteByte('\n')
+	}
+	bw.Flush()
+	wf.Close()
+	exe, err := os.Executable()
+	if err != nil {
+		panic(err)
+	}
+	runChild := func(mode string) (*dsConcResult, string, error) {
+		cmd := exec.Command(exe, "rebuild")
+		cmd.Env = append(os.Environ(), "DS_CONC_WORK="+path, "DS_CONC_MODE="+mode)
+		var stderr strings.Builder
+		cmd.Stderr = &dsTailWriter{sb: &stderr, max: 3000}
+		out, err := cmd.Output()
+		if err != nil {
+			return nil, stderr.String(), err
+		}
+		var r dsConcResult
+		if jerr := json.Unmarshal(out, &r); jerr != nil {
+			return nil, stderr.String(), jerr
+		}
+		return &r, "", nil
+	}
+	seq, tail, err := runChild("seq")
+	if err != nil {
+		s.finding(dsFinding{Prop: "C10", What: "loading descriptions one after the other killed the process: " + err.Error(), Detail: []string{dsLastLines(tail, 6)}})
+		return
+	}
+	for _, v := range seq.Verdicts {
+		s.count("concurrent:sequential-verdict:" + v)
+	}
+	rounds := 3
+	for round := 0; round < rounds; round++ {
+		par, tail, err := runChild("par")
+		s.count("concurrent:rounds")
+		if err != nil {
+			s.finding(dsFinding{Prop: "C10", What: "loading descriptions concurrently (UnserializeScope, UnserializeSchema, ReadSchema from 16 goroutines) killed the process: " + err.Error(),
+				Detail: []string{dsLastLines(tail, 6), path}})
+			return
+		}
+		for i := range seq.Verdicts {
+			if par.Verdicts[i] != seq.Verdicts[i] {
+				s.finding(dsFinding{Prop: "C10", What: fmt.Sprintf("a description is %s when loaded concurrently with others and %s when loaded alone", par.Verdicts[i], seq.Verdicts[i]),
+					Input: work[i].V, Detail: []string{work[i].Mode}})
+				return
+			}
+		}
+	}
 }
 
 type dsTailWriter struct {
